@@ -417,6 +417,9 @@ def redirection(rep):
 
 def replay(data):
     common.install_common_stubs()
+    if 'history' in data:
+        from . import histcheck
+        return histcheck.replay('C19', data)
     if data.get('scenario') == 'handle_pr':
         common.install_common_stubs(common.named_render)
         bad, out = GF.replay_on_real_git(data)
@@ -443,7 +446,7 @@ def check(rep):
                       targets=3)
     rep.assumptions += ['at most one open integration pull request per (branch, target) before the step',
                         'the git host filters get_pull_requests by source branch']
-    rep.outside_claim += ['orders and multiplicities of events over whole histories',
+    rep.outside_claim += ['orders and multiplicities of events beyond the bounded histories listed under bounds.histories',
                           'merging the parent removes the branches (C01 direct / queue merge runs)']
     for n in range(0, npre + 1):
         results, st = common.explore_parallel(pr_harness(n), split_depth=5)
@@ -503,3 +506,6 @@ def check(rep):
     common.install_common_stubs()
     redirection(rep)
     rep.sample(dict(part='integration pull requests', names=wnames(), targets=SHAPE))
+    # orders and multiplicities of events over bounded histories of complete jobs
+    from . import histcheck
+    histcheck.check(rep, 'C19')
